@@ -11,8 +11,8 @@ PROPS['C03'] = dict(
     floor=300,
     assumptions=['documented failure values are those of include/opnmidi.h; setTrackOptions(solo) of an absent track is three-valued'],
     stages=[
-        dict(name='seq', variant='asan', harness='c03_api.cpp', quick=1600, thorough=16000, budget=60),
-        dict(name='seq-nd', variant='asan-nd', harness='c03_api.cpp', quick=0, thorough=6000, budget=60),
+        dict(name='seq', variant='asan', harness='c03_api.cpp', quick=4000, thorough=40000, budget=60),
+        dict(name='seq-nd', variant='asan-nd', harness='c03_api.cpp', quick=0, thorough=15000, budget=60),
         # uninitialised-value use: valgrind memcheck over short deterministic sequences in the uninstrumented build
         dict(name='memcheck', variant='plain-d', harness='c03_api.cpp', quick=64, thorough=960, budget=150, wall=2400,
              wrapper=['valgrind', '-q', '--error-exitcode=79', '--exit-on-first-error=yes', '--track-origins=no', '--leak-check=no']),
